@@ -960,6 +960,50 @@ func (rw *regWorld) apply(op string, judge bool) (viol []string, digest string, 
 			expEv[fmt.Sprint(api.EventTypeEntityChange, api.ElementChangeAdd)]++
 		}
 		pe.Deliver(d)
+	case "reply2":
+		// reply2:<peer>:<entities>: a second detailed-discovery reply of a discovered peer that lists only some of its
+		// entities. What a stack does with the entities the reply omits is left open (C06); the model adopts it. But IF
+		// an omitted entity is gone afterwards, it is gone like an entity announced as removed: its registry entries,
+		// pending writes and the client-side bookkeeping go with it — and a later removal of the connection leaves
+		// nothing of this peer behind either way.
+		p := f[1]
+		pe := w.Peers[p]
+		if !m.conn[p] || m.undisc[p] {
+			break
+		}
+		keep := map[uint]bool{}
+		for _, k := range strings.Split(f[2], ",") {
+			keep[uint(atoi(k))] = true
+		}
+		var ents []world.EntSpec
+		for _, es := range peerEnts(rw.nested) {
+			if keep[entCode(es.Addr)] {
+				ents = append(ents, es)
+			}
+		}
+		pe.Deliver(pe.DiscoveryReply(ents))
+		rt.WaitIdle()
+		judge = false
+		effect = true
+		for e := range m.ents[p] {
+			if e == 0 || pe.Dev.Entity(spine.NewAddressEntityType(entAddr(e))) != nil {
+				continue
+			}
+			delete(m.ents[p], e)
+			m.subs, _ = dropWhere(m.subs, func(x regEntry) bool { return x.peer == p && entCode(clientVar(x.c).ent) == e })
+			m.binds, _ = dropWhere(m.binds, func(x regEntry) bool { return x.peer == p && entCode(clientVar(x.c).ent) == e })
+			var np []pendW
+			for _, pw := range m.pend {
+				if !(pw.peer == p && entCode(clientVar(pw.c).ent) == e) {
+					np = append(np, pw)
+				}
+			}
+			m.pend = np
+			for _, l := range []uint{1, 2} {
+				delete(m.lsubs, fmt.Sprintf("L%d|%s|%d", l, p, e))
+				delete(m.lbinds, fmt.Sprintf("L%d|%s|%d", l, p, e))
+			}
+		}
 	case "lsub", "lbind":
 		le, p, re := uint(atoi(f[1])), f[2], uint(atoi(f[3]))
 		lf := w.L.FeatureByAddress(world.FAddr(world.LocalAddr, []uint{le}, lLCClient))
